@@ -1,10 +1,16 @@
 pub mod c07;
+pub mod c16;
+pub mod c18;
+pub mod c20;
 
 use crate::core::Tier;
 
 pub fn run(id: &str, tier: Tier) -> Option<i32> {
     Some(match id {
         "C07" => c07::run(tier),
+        "C16" => c16::run(tier),
+        "C18" => c18::run(tier),
+        "C20" => c20::run(tier),
         _ => return None,
     })
 }
@@ -16,6 +22,9 @@ pub fn replay(property: &str, part: &str, case: &serde_json::Value) -> Option<Re
         ("C07", "roundtrip") => replay_part(&c07::RoundTrip, case, 1),
         ("C07", "prefixes") => replay_part(&c07::Prefixes, case, 1),
         ("C07", "arbitrary-bytes") => replay_part(&c07::ArbitraryBytes, case, 1),
+        ("C16", "tables") => replay_part(&c16::Tables, case, 1),
+        ("C18", "histories") => replay_part(&c18::Histories, case, 1),
+        ("C20", "histories") => replay_part(&c20::Histories, case, 1),
         _ => return None,
     })
 }
